@@ -588,7 +588,7 @@ def design_runs(chk, tier):
             if not r["ok"]:
                 raise MachineryError("ConfigCache.tla (%s): %s fails on the model:\n%s" % (label, r["violated"], r["out"][-2500:]))
             if coverage:
-                zero = [k for k, v in r["coverage"].items() if v == 0 and k not in ("Init",)]
+                zero = [k for k, v in r["coverage"].items() if v == 0 and k not in ("Init", "Next")]   # Next: disjuncts switched off by empty constants
                 need = {"Query", "CompMutator", "DeleteComp", "AddComp", "SetGlobalVar", "SetStageVarOf", "MutateReturned"}
                 if zero or not need <= set(r["coverage"]):
                     raise MachineryError("ConfigCache.tla (%s): vacuous actions %s / coverage table %s" % (label, zero, r["coverage"]))
